@@ -115,6 +115,71 @@ theorem fold_events (call : Child → TC → Out) (p : Policy) (k : Clock) (i : 
     · obtain ⟨c', hc', tc, htc⟩ := ih _ _ e h2
       exact ⟨c', List.mem_cons_of_mem _ hc', tc, htc⟩
 
+theorem idx_const (i : Nat) (l : List CEv) : ∀ n ∈ (l.map (fun e => (i, e))).map (·.1), n = i := by
+  intro n hn
+  obtain ⟨x, hx, rfl⟩ := List.mem_map.mp hn
+  obtain ⟨y, _, rfl⟩ := List.mem_map.mp hx
+  rfl
+
+theorem idx_const_pairwise (i : Nat) (l : List CEv) : ((l.map (fun e => (i, e))).map (·.1)).Pairwise (· ≤ ·) := by
+  induction l with
+  | nil => exact List.Pairwise.nil
+  | cons e l ih =>
+    refine List.Pairwise.cons (fun n hn => ?_) ih
+    rw [idx_const i l n hn]; exact Nat.le_refl _
+
+/-- **the children are served in list order**: the events of a fold, read by child number, never go back -/
+theorem fold_in_order (call : Child → TC → Out) (p : Policy) (k : Clock) (i : Nat) (cs : List Child) :
+    (∀ e ∈ (foldAll call p k i cs).2.2, i ≤ e.1) ∧ ((foldAll call p k i cs).2.2.map (·.1)).Pairwise (· ≤ ·) := by
+  induction cs generalizing k i with
+  | nil => exact ⟨fun e he => (by cases he), List.Pairwise.nil⟩
+  | cons c cs ih =>
+    obtain ⟨h1, h2⟩ := ih (k.tick (call c (k.tc p)).slow) (i + 1)
+    have hev : (foldAll call p k i (c :: cs)).2.2 =
+        (call c (k.tc p)).evs.map (fun e => (i, e)) ++ (foldAll call p (k.tick (call c (k.tc p)).slow) (i + 1) cs).2.2 := rfl
+    rw [hev]
+    constructor
+    · intro e he
+      rcases List.mem_append.mp he with h | h
+      · obtain ⟨x, _, rfl⟩ := List.mem_map.mp h; exact Nat.le_refl _
+      · exact Nat.le_of_succ_le (h1 e h)
+    · rw [List.map_append, List.pairwise_append]
+      refine ⟨idx_const_pairwise i _, h2, fun a ha b hb => ?_⟩
+      rw [idx_const i _ a ha]
+      obtain ⟨e, he, rfl⟩ := List.mem_map.mp hb
+      exact Nat.le_of_succ_le (h1 e he)
+
+/-- **the events a fold reports for child `j` are exactly the events of that child's one call** (this is what ties the
+    canonical line the driver prints, and the harness reproduces, to the children's own logs the theorems speak about) -/
+theorem fold_events_of_child (call : Child → TC → Out) (p : Policy) (k : Clock) (i : Nat) (cs : List Child) :
+    ∀ (j : Nat) (h : j < cs.length), ∃ tc,
+      ((foldAll call p k i cs).2.2.filter (fun e => e.1 == i + j)).map (·.2) = (call cs[j] tc).evs := by
+  induction cs generalizing k i with
+  | nil => intro j h; simp at h
+  | cons c cs ih =>
+    intro j h
+    have hev : (foldAll call p k i (c :: cs)).2.2 =
+        (call c (k.tc p)).evs.map (fun e => (i, e)) ++ (foldAll call p (k.tick (call c (k.tc p)).slow) (i + 1) cs).2.2 := rfl
+    have hrest := (fold_in_order call p (k.tick (call c (k.tc p)).slow) (i + 1) cs).1
+    rw [hev, List.filter_append, List.map_append]
+    cases j with
+    | zero =>
+      refine ⟨k.tc p, ?_⟩
+      have h1 : ((call c (k.tc p)).evs.map (fun e => (i, e))).filter (fun e => e.1 == i + 0) = (call c (k.tc p)).evs.map (fun e => (i, e)) := by
+        rw [List.filter_eq_self]; intro e he; obtain ⟨x, _, rfl⟩ := List.mem_map.mp he; simp
+      have h2 : ((foldAll call p (k.tick (call c (k.tc p)).slow) (i + 1) cs).2.2).filter (fun e => e.1 == i + 0) = [] := by
+        rw [List.filter_eq_nil_iff]; intro e he; have := hrest e he; simp; omega
+      rw [h1, h2, List.map_map]
+      have h3 : ((fun x : Nat × CEv => x.snd) ∘ fun e => (i, e)) = id := by funext e; rfl
+      simp [h3]
+    | succ j =>
+      obtain ⟨tc, htc⟩ := ih (k.tick (call c (k.tc p)).slow) (i + 1) j (by simpa using h)
+      refine ⟨tc, ?_⟩
+      have h1 : ((call c (k.tc p)).evs.map (fun e => (i, e))).filter (fun e => e.1 == i + (j + 1)) = [] := by
+        rw [List.filter_eq_nil_iff]; intro e he; obtain ⟨x, _, rfl⟩ := List.mem_map.mp he; simp
+      have h2 : i + (j + 1) = i + 1 + j := by omega
+      rw [h1, h2]; simpa using htc
+
 /-! ## facts about one call at one child (all by cases on the kind and the latch) -/
 
 /-- the kinds whose exporter `Shutdown` sits behind the child's own latch -/
